@@ -43,7 +43,7 @@ def queries(tier, kf):
     if tier == "thorough":
         qs.append(q("c05-putchar-poll-2x2", 0, 2, 2, 3, prod="producer_putchar", cons="consumer_poll", extra={"NO_FAIL_WITNESS": None}, timeout=7200))
         qs.append(q("c05-free-O2-2x2", 0, 2, 2, 3, opt="-O2", timeout=7200))
-        qs.append(q("c05-free-len4-2x3", 0, 2, 3, 4, timeout=7200, extra={"LEN": 4}))
+        qs.append(q("c05-free-len4-2x3", 0, 2, 3, 4, timeout=7200, extra={"LEN": 4, "NO_FAIL_WITNESS": None}))
     cans = [("publish-first", "\trb->bufp[old_writei] = d;\n\tatomic_signal_fence(memory_order_seq_cst);\n\tatomic_store(&rb->writei, writei);",
              "\tatomic_store(&rb->writei, writei);\n\tatomic_signal_fence(memory_order_seq_cst);\n\trb->bufp[old_writei] = d;"),
             ("wrap", "\tif (++writei >= rb->buf_len)\n\t\twritei -= rb->buf_len;", "\tif (++writei > rb->buf_len)\n\t\twritei -= rb->buf_len;"),
